@@ -32,6 +32,25 @@ theorem KeepD.trans {a b c : World} (h1 : KeepD a b) (h2 : KeepD b c) : KeepD a 
    h2.closed.trans h1.closed, h2.noListen.trans h1.noListen, h2.asyncListen.trans h1.asyncListen,
    h2.waiters.trans h1.waiters, fun h => h2.mainMono (h1.mainMono h)⟩
 
+theorem resolveWaiter_same (id : Nat) (ok : Bool) (w : World) :
+    ∃ ws rg, resolveWaiter id ok w = { w with waiters := ws, registered := rg } := by
+  unfold resolveWaiter
+  split
+  · exact ⟨_, _, rfl⟩
+  · split
+    · split <;> exact ⟨_, _, rfl⟩
+    · exact ⟨_, _, rfl⟩
+
+theorem connectAs_same (nm : Option String) (w : World) :
+    ∃ ws wn q mo, connectAs nm w = { w with waiters := ws, wnames := wn, queue := q, mainObs := mo } ∧
+      ∀ t ∈ w.queue, t ∈ q := by
+  unfold connectAs
+  dsimp only
+  split
+  · exact ⟨_, _, _, _, rfl, fun t ht => ht⟩
+  · exact ⟨_, _, _, _, rfl, fun t ht => List.mem_append.mpr (Or.inl ht)⟩
+  · exact ⟨_, _, _, _, rfl, fun t ht => List.mem_append.mpr (Or.inl ht)⟩
+
 theorem keep_andThen {w : World} {r : Res} {f : World → Res} (h1 : KeepD w r.1) (h2 : ∀ v, KeepD v (f v).1) :
     KeepD w (andThen r f).1 := by
   obtain ⟨v, e⟩ := r
